@@ -42,6 +42,10 @@ impl World for RingBufWorld {
             }
             // constructed with new(): ArrayBuf keeps its array length, the heap buffers have capacity 0
             v.push(Cfg { flavour: 0, mode: 1, x: if y == BUF_ARRAY { 3 } else { 0 }, y, k: 0 });
+            // zero-sized elements (signal channels): only counts can be compared
+            for x in [0u8, 2, 3] {
+                v.push(Cfg { flavour: 0, mode: 2, x, y, k: 0 });
+            }
         }
         v
     }
@@ -59,6 +63,16 @@ impl World for RingBufWorld {
         vec![spec("push", 30, 0, 0), spec("pop", 24, 0, 0), spec("observe", 2, 0, 0), spec("drop_value", 6, 3, 0)]
     }
     fn run(&self, cfg: &Cfg, ops: &[Op], run: &mut Run) {
+        if cfg.mode == 2 {
+            let c = cfg.x as usize;
+            return match (cfg.y, cfg.x) {
+                (BUF_ARRAY, 0) => run_zst::<ArrayBuf<Zst, [Zst; 0]>>(ArrayBuf::new(), 0, ops, run),
+                (BUF_ARRAY, 2) => run_zst::<ArrayBuf<Zst, [Zst; 2]>>(ArrayBuf::new(), 2, ops, run),
+                (BUF_ARRAY, _) => run_zst::<ArrayBuf<Zst, [Zst; 3]>>(ArrayBuf::new(), 3, ops, run),
+                (BUF_FIXED, _) => run_zst::<FixedHeapBuf<Zst>>(FixedHeapBuf::with_capacity(c), c, ops, run),
+                _ => run_zst::<GrowingHeapBuf<Zst>>(GrowingHeapBuf::with_capacity(c), c, ops, run),
+            };
+        }
         let new = cfg.mode == 1;
         let c = cfg.x as usize;
         macro_rules! arr {
@@ -97,7 +111,11 @@ impl World for RingBufWorld {
                 BUF_FIXED => "FixedHeapBuf",
                 _ => "GrowingHeapBuf",
             },
-            if cfg.mode == 1 { "new()" } else { "with_capacity()" },
+            match cfg.mode {
+                1 => "new()",
+                2 => "with_capacity(), zero-sized elements",
+                _ => "with_capacity()",
+            },
             cfg.x
         )
     }
@@ -251,5 +269,131 @@ fn run_b<B: RingBuf<Item = Tagged>>(buf: B, cap: usize, ops: &[Op], run: &mut Ru
                 return;
             }
         }
+    }
+}
+
+/// A zero-sized element whose drops are counted.
+pub struct Zst;
+
+thread_local! {
+    static ZST_DROPS: std::cell::Cell<u64> = const { std::cell::Cell::new(0) };
+}
+
+impl Drop for Zst {
+    fn drop(&mut self) {
+        let _ = ZST_DROPS.try_with(|c| c.set(c.get() + 1));
+    }
+}
+
+fn zst_drops() -> u64 {
+    ZST_DROPS.with(|c| c.get())
+}
+
+/// The same model with zero-sized elements: identities do not exist, counts must still agree.
+fn run_zst<B: RingBuf<Item = Zst>>(buf: B, cap: usize, ops: &[Op], run: &mut Run) {
+    tls::reset_history();
+    run.panic_prop = Some("C19");
+    ZST_DROPS.with(|c| c.set(0));
+    let mut buf = buf;
+    let mut stored: usize = 0;
+    let mut pushes: usize = 0;
+    let mut popped_alive: Vec<Zst> = Vec::new();
+    let mut harness_drops: u64 = 0;
+    if cap == 0 {
+        run.class(CL_ZERO_CAP);
+    }
+    let observe = |buf: &B, stored: usize, run: &mut Run| {
+        let (len, empty, can, capacity) = (buf.len(), buf.is_empty(), buf.can_push(), buf.capacity());
+        if capacity != cap {
+            run.violate("C19", "capacity", format!("capacity() == {} but the buffer was constructed with capacity {} (zero-sized elements)", capacity, cap));
+        } else if len != stored {
+            run.violate("C19", "len", format!("len() == {} but {} elements are stored", len, stored));
+        } else if empty != (stored == 0) {
+            run.violate("C19", "is_empty", format!("is_empty() == {} with {} stored elements", empty, stored));
+        } else if can != (stored < cap) {
+            run.violate("C19", "can_push", format!("can_push() == {} with {} stored elements and capacity {}", can, stored, cap));
+        }
+    };
+    observe(&buf, stored, run);
+    for (i, op) in ops.iter().enumerate() {
+        if run.failed() {
+            break;
+        }
+        run.set_step(i);
+        run.steps += 1;
+        match op.code {
+            OP_PUSH => {
+                if stored < cap {
+                    if run.call("push()", || buf.push(Zst)).is_some() {
+                        stored += 1;
+                        pushes += 1;
+                        if pushes > cap {
+                            run.class(CL_WRAPPED);
+                        }
+                        if stored == cap {
+                            run.class(CL_FULL_SEEN);
+                        }
+                        run.note(|| "push(zst)".to_string());
+                    }
+                } else {
+                    run.noops += 1;
+                }
+            }
+            OP_POP => {
+                if stored > 0 {
+                    if let Some(v) = run.call("pop()", || buf.pop()) {
+                        stored -= 1;
+                        run.note(|| "pop() -> zst".to_string());
+                        if stored == 0 {
+                            run.class(CL_EMPTY_AFTER_USE);
+                        }
+                        if popped_alive.len() >= 3 {
+                            popped_alive.remove(0);
+                            harness_drops += 1;
+                        }
+                        popped_alive.push(v);
+                    }
+                } else {
+                    run.noops += 1;
+                }
+            }
+            OP_DROP_HELD => {
+                if popped_alive.is_empty() {
+                    run.noops += 1;
+                } else {
+                    popped_alive.remove(op.a as usize % popped_alive.len());
+                    harness_drops += 1;
+                }
+            }
+            _ => {}
+        }
+        if !run.failed() {
+            observe(&buf, stored, run);
+            if zst_drops() != harness_drops {
+                run.violate("C19", "stored-element-dropped", format!("{} elements were dropped but the harness dropped only {} popped ones", zst_drops(), harness_drops));
+            }
+        }
+        if run.want_fp && !run.failed() {
+            let mut h = H128::new();
+            h.u64(stored as u64);
+            h.u64(if cap == 0 { 0 } else { (pushes % cap) as u64 });
+            h.u64(popped_alive.len() as u64);
+            run.fp = h.finish();
+        }
+    }
+    if run.failed() {
+        std::mem::forget(buf);
+        std::mem::forget(popped_alive);
+        return;
+    }
+    run.set_step(ops.len());
+    if stored > 0 {
+        run.class(CL_DROPPED_NONEMPTY);
+    }
+    if run.call("drop(buffer)", || drop(buf)).is_none() {
+        return;
+    }
+    if zst_drops() != harness_drops + stored as u64 {
+        run.violate("C19", "drop-stored", format!("dropping the buffer with {} stored zero-sized elements dropped {} of them", stored, zst_drops() - harness_drops));
     }
 }
